@@ -19,6 +19,15 @@ T = {
  "C05": ("Coq proof (MAP M-step algebra: alpha range, blends, no-evidence fallbacks, end points, epsilon-delta limits in the relevance factor, weight renormalisation; variance clause proved of the repaired definition and refuted with a witness of the faithful one) + correspondence + step-by-step oracle",
          "Theorems over R about the per-component MAP helpers the model maps over components; the faithful variance blend (today's code, known finding D2) is proved NOT to satisfy the no-evidence clause. The oracle recomputes the stated blend from the implementation's own statistics after every iteration.",
          "Known finding D2 listed in known_findings.json; means-only penalised-likelihood monotonicity validated numerically (partial).", "DESIGN.md 4/C05"),
+ "C06": ("Coq proof (k-means at R: nearest-centroid assignment is the first argmin, the mean minimises squared distance, descent of the distortion by regrouping, centroid = mean of previous members, criterion = distortion of entering centroids, chunk independence) + fit correspondence + step-by-step oracle",
+         "Theorems over R for any numbers of clusters/features/samples/chunks; KMeansMachine.fit compared with the float model (centroids, criterion, iteration count; explicit and seeded initialisers read back; NumPy and Dask chunks); the oracle re-runs training one iteration at a time against the independently computed distortion.",
+         "The loop's stopping rule is tied by correspondence and the oracle with placed thresholds (the loop theorem is shared in shape with C03's). Reals axioms.", "DESIGN.md 4/C06"),
+ "C20": ("Coq proof (squared Euclidean distance, shape, first-argmin label, weights = fractions summing to one, variances = biased variances >= 0, every chunking) + correspondence with exact rational reference distances",
+         "Theorems over R; distances/labels/variances/weights of the implementation compared with the float model in difference form at offsets up to 1e8 and with exact rational arithmetic; GMM initialised from k-means checked to start from exactly centroids / floored variances / weights.",
+         "binary64 cancellation of sum x^2/n - mean^2 at large offsets is outside the R model (tolerance 64 eps max|x|^2).", "DESIGN.md 4/C20"),
+ "C11": ("Coq proof (the model's score is by construction the normalised linear score of the client mean with offset U x; channel factor and score depend on the probe only through its pooled sums; several statistics score as their sum) + correspondence of score/estimate_x/estimate_ux + entry-point oracle",
+         "Theorems over R for any sizes; every entry point of the implementation (score, pooled score, score_using_array, enroll vs enroll_using_array, estimate_x/ux, ISV transform) evaluated on the same arrays.",
+         "matrix inverse is an oracle (np.linalg.inv) - the float model uses Gauss-Jordan; x is checked against its normal equation on every case.", "DESIGN.md 4/C11"),
 }
 
 NOT_YET = "check not built yet in this round (the proof technique applies; see DESIGN.md section 4)"
